@@ -314,7 +314,7 @@ func ndValueOf(name string, t octosql.Type, maxElems, strLen int, strs *[]string
 	case octosql.TypeIDNull:
 		return octosql.NewNull()
 	case octosql.TypeIDBoolean:
-		return octosql.NewBoolean(zzverif.Bool(name + ".b"))
+		return octosql.NewBoolean(zzverif.Choice(name+".b", 2) == 1)
 	case octosql.TypeIDInt:
 		return octosql.NewInt(nestedInts[zzverif.Choice(name+".i", len(nestedInts))])
 	case octosql.TypeIDString:
